@@ -69,8 +69,14 @@ def pka_text(mol, reference="neutral"):
     return "\n".join(lines[1:])
 
 
+# every text the check ran the real program on (the program-level correspondence draws its sample from these)
+OFFERED = []
+
+
 def run(text, args=(), name="input.pdb", want_text=True, capture_log=False, stream=True):
     """one real PROPKA run on PDB text; never raises"""
+    if stream and len(OFFERED) < 20000:
+        OFFERED.append((name, text, tuple(args)))
     o = Obs()
     handler = None
     if capture_log:
